@@ -50,8 +50,24 @@ def loop_shape(fn, ctx, L):
     if not stepok or n.get("c") is None:
         return out
     fs = ctx.cmp_fact(n["c"], True)
-    if len(fs) != 1:
+    if not fs:
         return out
+    extra = []
+    if len(fs) > 1:
+        # `v < B && more` / `it != end && more`: the loop is still an index / iterator loop, but it may stop early
+        def is_main(f_):
+            if f_[0] in ("<", "<=") and (f_[1][:2] == var[:2] or (f_[1][0] in ("field", "mcall") and len(f_[1]) == 3 and f_[1][2][:2] == var[:2])):
+                return True
+            if f_[0] == "!=" and (f_[1][:2] == var[:2] or f_[2][:2] == var[:2]):
+                return True
+            return False
+        mains = [f_ for f_ in fs if is_main(f_)]
+        if len(mains) != 1:
+            return out
+        extra = [f_ for f_ in fs if f_ is not mains[0]]
+        fs = mains
+        out["extra"] = extra
+        out["exits"] = list(out["exits"]) + [(n["c"], "stop-condition")]
     f = fs[0]
 
     def thin(k):
